@@ -73,7 +73,7 @@ def tasks(tier, seed, selftest=False):
     for f in FINAL_ANY + FINAL_FRESH:
         S.append(dict(family="U2", skeleton=(f,), timebox=120))
         S.append(dict(family="D3", skeleton=(f,), timebox=25 if q else 900))
-    for lim in ("bfs", "dfs", "minp", "blockp", "aseeds", "target"):
+    for lim in ("bfs", "dfs", "minp", "blockp", "block", "aseeds", "target"):
         for fin in ("skiprem", "skipall"):
             S.append(dict(family="U2", skeleton=(lim, fin), timebox=25 if q else 900))
             if not q:
